@@ -191,6 +191,7 @@ def decl_contract(cls: str, method: str):
         c.raises("DeclarationError", props=("C10", "C11"))
         c.raises_when("DeclarationError", rc)
         c.returns(cls)
+        c.reproducible()      # C17: the declared schema does not depend on the interpreter's hash seed / clock
         c.meta = {"method": method, "params": params}
         c.ensures("registry", lambda r, post: S.registry_is(ct, cls, r, Sx, upd), ("C10", "C11", "C06"))
         c.ensures("invariant", lambda r, post: z3.And(*S.reach_def(ct, cls, r)), ("C10",))
@@ -202,7 +203,7 @@ def decl_contract(cls: str, method: str):
 
 for (_cls, _m) in list(SPEC):
     _short = _cls[:-len("Schema")]
-    contract(T_ + FILES[_short] + ".py", f"{_cls}.{_m}", props=("C10", "C11", "C07"),
+    contract(T_ + FILES[_short] + ".py", f"{_cls}.{_m}", props=("C10", "C11", "C07", "C17"),
              group="declaration")(decl_contract(_cls, _m))
 
 transparent(T_ + "_str_schema.py", "StrSchema.__declare_len", "StrSchema.__declare_min_len",
@@ -311,7 +312,7 @@ def _list_len(ct, P, a):
 
 spec("ListSchema", "len", ["val_or_min", "max"])(_list_len)
 for _m in ("__call__", "len"):
-    contract(LS, f"ListSchema.{_m}", props=("C10", "C11", "C07"), group="declaration")(decl_contract("ListSchema", _m))
+    contract(LS, f"ListSchema.{_m}", props=("C10", "C11", "C07", "C17"), group="declaration")(decl_contract("ListSchema", _m))
 
 
 @invariant(LS, "ListSchema.__call__", loop=0)
